@@ -219,7 +219,7 @@ class DiagLinearOperator(TriangularLinearOperator):
         if isinstance(other, TriangularLinearOperator):
             return TriangularLinearOperator(self @ other._tensor, upper=other.upper)
 
-        if isinstance(other, BlockDiagLinearOperator):
+        if isinstance(other, BlockDiagLinearOperator) and self.batch_shape == other.batch_shape:
             diag_reshape = self._diag.view(*other.base_linear_op.shape[:-1])
             diag = DiagLinearOperator(diag_reshape)
             # using matmul here avoids having to implement special case of elementwise multiplication
